@@ -92,6 +92,13 @@ Example C09_adversarial_nonvacuous : forall cfg,
                             OTuneOk 7 131072 (c_heartbeat cfg); OOpen (c_vhost cfg)].
 Proof. exact adversarial_example. Qed.
 
+(* The decidable predicate evaluated on what the real Channel0.on_frame did with
+   an arbitrary frame sequence (family ch0seq of the check) holds of every model
+   run whose Tune offers are non-negative. *)
+Theorem C09_sequences_observable : forall i, ch0_wf i = true -> ch0_prop_ok i (ch0_model i) = true.
+Proof. exact ch0_model_ok. Qed.
+Print Assumptions C09_sequences_observable.
+
 (* Whole observable of Connection.open() for every offer, configuration and
    refusal (Connection.Close(code) / drop / silence at any of the three steps). *)
 Theorem C09_open : forall i, open_wf i -> open_prop_ok i (open_model i) = true.
